@@ -295,6 +295,15 @@ theorem refKP {P} {r : Bool → Frag → Rd.R} {c w} (h : RefinesEP P (r false) 
     ((ref c).dec s = some (v, s')) ↔ (Kept (ref c) s v s' ∧ (P v → Rd.viaRef r s = some (w v, s'))) :=
   ⟨fun hd => ⟨hd, h.viaRef s v s' hd⟩, fun hd => hd.1⟩
 
+/-- `^X` under a `Maybe` that the parser tests statement by statement: also `viewMaybe w' v = w' v` -/
+theorem refKPM {P} {r : Bool → Frag → Rd.R} {c w} (h : RefinesEP P (r false) c w) (hn : NonUnit c) (s : Frag) (v : Val)
+    (s' : Frag) :
+    ((ref c).dec s = some (v, s')) ↔
+      (Kept (ref c) s v s' ∧ (P v → Rd.viaRef r s = some (w v, s')) ∧ ∀ w', viewMaybe w' v = w' v) := by
+  refine ⟨fun hd => ⟨hd, h.viaRef s v s' hd, fun w' => ?_⟩, fun hd => hd.1⟩
+  have := nonUnit_ref c hn s v s' hd
+  cases v <;> simp_all [viewMaybe]
+
 /-- `Maybe ^X` read by `Rd.optional s (Rd.viaRef r)` -/
 theorem optRefK {r : Bool → Frag → Rd.R} {c w} (h : Refines (r false) c w) (hn : NonUnit c) (s : Frag) (v : Val) (s' : Frag) :
     ((maybe (ref c)).dec s = some (v, s')) ↔
@@ -319,6 +328,35 @@ theorem Refines.keepV {r c w} (h : Refines r c w) (s : Frag) (v : Val) (s' : Fra
 theorem RefinesP.keepV {r c w} (h : RefinesP PV r c w) (s : Frag) (v : Val) (s' : Frag) :
     (c.dec s = some (v, s')) ↔ (Kept c s v s' ∧ (v.noVar = true → r s = some (w v, s'))) := h.keep s v s'
 
+/-- the two shapes of a `HashmapE` value -/
+theorem hashmapE_shape (n : Nat) (X : Codec) (s : Frag) (v : Val) (s' : Frag) (h : (hashmapE n X).dec s = some (v, s')) :
+    v = .con "hme_empty" .unit ∨ ∃ t, v = .con "hme_root" t := by
+  obtain ⟨bits, refs⟩ := s
+  simp only [hashmapE, tagged_dec, decAlts_cons, decAlts_nil, nothing_dec] at h
+  rcases h.2 with ⟨_, _, _, x, ⟨rfl, _⟩, rfl⟩ | ⟨_, ⟨_, _, _, x, _, rfl⟩ | ⟨_, hf⟩⟩
+  · exact Or.inl rfl
+  · exact Or.inr ⟨x, rfl⟩
+  · exact hf.elim
+
+/-- `HashmapE n X` read by `Rd.loadDict n rd`, with the shape of the value (for parsers that test the result for `None`) -/
+theorem dictKVS {rd X w} (h : RefinesEP PV rd X w) (n : Nat) (s : Frag) (v : Val) (s' : Frag) :
+    ((hashmapE n X).dec s = some (v, s')) ↔
+      (Kept (hashmapE n X) s v s' ∧ (v.noVar = true → Rd.loadDict n rd s = some (viewDict w n v, s')) ∧
+        (v = .con "hme_empty" .unit ∨ ∃ t, v = .con "hme_root" t)) :=
+  ⟨fun hd => ⟨hd, (h.dictV n) s v s' hd, hashmapE_shape n X s v s' hd⟩, fun hd => hd.1⟩
+
+theorem dictValuesSorted_dict (kv : List (Bits × Val)) : Rd.dictValuesSorted (Rd.dict kv) = some (Rd.list (kv.map (·.2))) := by
+  simp [Rd.dictValuesSorted, Rd.dict, Rd.list, List.map_map, Function.comp_def]
+
+/-- the same with `Rd.dict` unfolded -/
+theorem dictValuesSorted_con (f : Bits × Val → String) (kv : List (Bits × Val)) :
+    Rd.dictValuesSorted (Val.con "dict" (Val.record (List.map (fun p : Bits × Val => (f p, p.2)) kv))) =
+      some (Rd.list (kv.map (·.2))) := by
+  simp [Rd.dictValuesSorted, Rd.list, List.map_map, Function.comp_def]
+
+theorem veq_dict_unit (kv : List (Bits × Val)) : Rd.veq (Rd.dict kv) .unit = false := by
+  simp [Rd.veq, Rd.dict]
+
 /-! ### tactic -/
 
 /-- `tlb_struct` without `maybe_dec` / `ref_dec`: optional fields and references are read by combinators (`Rd.optional`,
@@ -332,6 +370,18 @@ macro "tx_struct" "[" ds:Lean.Parser.Tactic.simpLemma,* "]" : tactic =>
       List.cons_append, List.nil_append, List.append_assoc, Nat.reduceDiv, Nat.reduceMod, Nat.reduceBEq, Nat.reduceBNe,
       Nat.le_zero_eq, Nat.zero_le, ↓reduceIte, if_true, if_false, Nat.reduceEqDiff, Nat.succ_ne_zero, ne_eq,
       not_false_eq_true, not_true_eq_false])
+
+theorem veq_bits (a b : Bits) : Rd.veq (.bits a) (.bits b) = (a == b) := rfl
+theorem veq_unit_unit : Rd.veq .unit .unit = true := rfl
+
+/-- `tlb_eval` with `Rd.veq` kept folded except on bit strings / `None` (for parsers that test a dict for `None`) -/
+macro "tx_eval_dict" "[" ds:Lean.Parser.Tactic.simpLemma,* "]" : tactic =>
+  `(tactic| (try simp (config := {decide := true}) only [$ds,*, Frag.mk.injEq, uint_keep, sint_keep, bitsC_keep, boolC_keep, grams_keep,
+      and_imp, ne_eq, not_false_eq_true, true_and, Nat.reduceMod, Nat.reduceDiv, forall_const] at *
+             simp [*, Val.get, List.lookup, Rd.truthy, Rd.obj, Rd.str, Rd.loadRefV,
+      Rd.beginParse, Rd.special, Cell.bits, Cell.refs, Cell.exotic, veq_bits, veq_unit_unit, veq_dict_unit, dictValuesSorted_dict,
+      Rd.bits01, loadBits_cons, loadBytes_cons, takeBits_zero, takeBits_succ, loadBit_cons, loadBool_cons, loadRef_cons,
+      viewMaybe_unit]))
 
 /-- `RefinesP P (SrcTx.T false) T view_T` : `tx_refine [T, SrcTx.T, view_T, (…).keep, …]` -/
 macro "tx_refine" "[" ds:Lean.Parser.Tactic.simpLemma,* "]" : tactic =>
